@@ -9,8 +9,8 @@ CONSTANTS
   HistLen = 30
   Pick <- PickOne
   KnownGaps = {"F2a", "F2b", "F2c"}
-  PutAlerts = {"S1", "S2", "S3", "B", "T", "T3"}
-  Queries = {"S1", "S2", "S3", "B", "T", "T2", "T3"}
+  PutAlerts = {"S1", "S2", "S3", "B", "B2", "T", "T3"}
+  Queries = {"S1", "S2", "S3", "B", "B2", "T", "T2", "T3"}
   MuteQueries = {}
   StartModes = {"same", "now"}
   EndOffs = {0, 1, 2, 3, 5}
